@@ -61,7 +61,7 @@ type pipeCase struct {
 }
 
 var pipeHosts = map[string]string{
-	"origin": "origin.test", "denied": "denied.test", "denyExcl": "excl.denied.test",
+	"origin": "origin.test", "denied": "denied.test", "deniedUpper": "WWW.DENIED.TEST", "denyExcl": "excl.denied.test",
 	"direct": "direct.test", "directExcl": "excl.direct.test",
 	"other":  "other.test",
 	"lhName": "localhost", "lhUpper": "LOCALHOST", "lo4": "127.0.0.1", "lo4b": "127.9.9.9", "lo6": "[::1]",
@@ -761,6 +761,7 @@ func (pe *pipeEnv) runCase(c *pipeCase) map[string]any {
 			}
 		}
 		sh, sp := pipeSelf(c, strings.Trim(host, "[]"))
+		sh = strings.ReplaceAll(sh, "%25", "%") // the zone is percent-encoded in a URL only
 		wantDial := net.JoinHostPort(sh, sp)
 		switch c.Out.Dial {
 		case "R":
